@@ -279,15 +279,20 @@ impl LocalNode {
     ///
     /// Returns the generation (with tag).
     pub(crate) fn new_helping(&self, ptr: usize) -> usize {
-        let node = &self.node.get().expect("LocalNode::with ensures it is set");
+        let mut node = self.node.get().expect("LocalNode::with ensures it is set");
         debug_assert_eq!(node.in_use.load(Relaxed), NODE_USED);
-        let (gen, discard) = node.helping.get_debt(ptr, &self.helping);
-        if discard {
+        if self.helping.wraps_next() {
             // Too many generations happened, make sure the writers give the poor node a break for
             // a while so they don't observe the generation wrapping around.
+            //
+            // This must happen before the transaction starts: the rest of it (confirm_helping)
+            // still needs a node and it must be the one the generation was published in. So we
+            // retire the old node first and run the whole transaction on another one.
             node.start_cooldown();
-            self.node.take();
+            node = Node::get();
+            self.node.set(Some(node));
         }
+        let (gen, _discard) = node.helping.get_debt(ptr, &self.helping);
         gen
     }
 
